@@ -70,6 +70,15 @@ def finalisingOrderX (c : XCtx S) (cleanAfter : Bool) (o : XOut G) : Bool :=
   (if o.writes.contains "deleteCanarySvc" then cleanAfter else true) &&
   (if o.done && c.hasRef then cleanAfter && (c.noGen || o.net.canarySvc.isNone) && unpinned o.net else true)
 
+/-- **C04 / C05** grace between the phases of `FinalisingTrafficRouting`: with a non-zero grace period a call
+    that un-pins the stable Service does nothing else, and a call that reports a modification (`touched`:
+    `LastUpdateTime` was set) does not go on to remove the canary Service — the provider has the grace period
+    to pick up the restored configuration before the canary Service disappears. -/
+def graceSeparatesX (c : XCtx S) (o : XOut G) : Bool :=
+  c.graceSec == 0 ||
+  ((!o.writes.contains "unpinStable" || o.writes == ["unpinStable"]) &&
+   !(o.touched && o.writes.contains "deleteCanarySvc"))
+
 /-- **C05** a retry-style clean-up call that reports completion (no retry, no error) has established its effect -/
 def taskPostX (call : String) (c : XCtx S) (cleanAfter : Bool) (o : XOut G) : Bool :=
   if c.hasRef && !o.done && !o.err then
@@ -234,6 +243,19 @@ def cleanB (p : PCfg) (g : CNet) : Bool :=
     | some (some _) => igCleanB g.2.1
     | _ => true) &&
   (!p.gateway || gwCleanB ⟨p.stable, p.canary⟩ g.2.2)
+
+/-- **composite Finalise goes on after a member failed**: how many configured members are not clean.  After a
+    clean-up call in which one `Get` failed (a one-shot read fault, no write fault) at most the member that hit
+    the failed read may be left unclean: the others were finalised all the same
+    (`CompositeController.Finalise`: "process next first"; model: `seq_finalise_continues`). -/
+def uncleanMembers (p : PCfg) (g : CNet) : Nat :=
+  (if p.custom && !cuCleanB g.1 then 1 else 0) +
+  (match p.ingress with
+    | some (some _) => if igCleanB g.2.1 then 0 else 1
+    | _ => 0) +
+  (if p.gateway && !gwCleanB ⟨p.stable, p.canary⟩ g.2.2 then 1 else 0)
+
+def finaliseContinuesB (p : PCfg) (g : CNet) : Bool := decide (uncleanMembers p g ≤ 1)
 
 /-- **composite: no member is skipped.**  In an `EnsureRoutes` round that returned no error, every configured
     member was called: its objects afterwards (`after`) are what its own `EnsureRoutes` makes of its objects
